@@ -522,7 +522,12 @@ def callVerdict (fn : String) (toks : List String) (obs : String) : String :=
               | _ => s!" ;DIVERGE model=ok 1 {want}"
             | _, _ => ""
       -- (1) the property predicate, on the observation alone
-      classVerdict fn vs obs cls div (hasHugeString toks)
+      -- a result of more than 2048 bits (in the pool: a shift by 2^31-1, 256 MiB, which the fixed
+      -- bsl honours) is memory the caller asked for: exceeding the worker's budget there is recorded only
+      let hugeResult := match predict fn toks vs with
+        | some p => (match p.value with | some v => v.startsWith "B:" | none => false)
+        | none => false
+      classVerdict fn vs obs cls div (hasHugeString toks || hugeResult)
 
 /-! ### direct ops -/
 
